@@ -195,12 +195,12 @@ def g_FiniteDifference(rng):
         nd = len(shape)
         axes_opts = [None] + _subsets(nd)
         if nd >= 2:
-            axes_opts += [[1, 0], -1, 0]
+            axes_opts += [[1, 0], -1, 0, [0, -1], [-1, 0], [-nd, -1]]  # negative and mixed-sign axes (normalize_axes)
         else:
-            axes_opts += [0]
+            axes_opts += [0, [-1]]
         for axes in axes_opts:
             for p, a, c in FD_BOUNDARY:
-                ax = list(range(nd)) if axes is None else ([axes] if isinstance(axes, int) else axes)
+                ax = list(range(nd)) if axes is None else ([axes % nd] if isinstance(axes, int) else [a_ % nd for a_ in axes])
                 if not c and any(shape[i] + (p is not None) + (a is not None) - 1 <= 0 for i in ax):
                     continue
                 out.append({"shape": shape, "axes": axes, "prepend": p, "append": a, "circular": c, "dtype": "float64"})
@@ -224,6 +224,9 @@ def g_DFT(rng):
             # axes None with a shorter axes_shape: trailing axes
             for norm in (None, "ortho"):
                 out.append({"shape": shape, "axes": None, "axes_shape": [shape[-1] + 1], "norm": norm})
+            # negative axes (Python indexing of input_shape / output_shape in the constructor)
+            for axes, ash in [([-1], None), ([-1], [shape[-1] + 2]), ([0, -1], [shape[0], shape[-1] + 1]), ([-2], [max(1, shape[-2] - 1)])]:
+                out.append({"shape": shape, "axes": axes, "axes_shape": ash, "norm": "ortho"})
     return out
 
 
@@ -269,6 +272,20 @@ def g_CircularConvolve(rng):
     add([3, 4], [2, 2], None, [0, 1], xd="complex128", hc=True)
     add([3, 4], [3, 2], 1, None, xd="float64", hc=True)
     add([4], [3], None, None, xd="float32")
+    # complex data with a FRACTIONAL centre on an even-length axis (the Nyquist bin carries cos(k pi), not exp)
+    add([4], [2], None, [0.5], xd="complex128")
+    out[-1]["must"] = True
+    add([2, 4], [2, 2], None, [0.5, 1.25], xd="float64", hc=True)
+    out[-1]["must"] = True
+    add([6], [3], None, [-0.75], xd="complex128", hc=True)
+    # filter longer than the axis: fftn(h, s=n) crops it
+    add([3], [5], None, None)
+    add([3], [5], None, [1])
+    add([2, 3], [3, 4], None, [0, 1])
+    add([4], [6], None, [0.5])
+    # negative integer centres
+    add([5], [3], None, [-2])
+    add([3, 4], [2, 2], None, [-1, 1])
     # h given in the DFT domain
     for xs, nd in [([4], None), ([3, 4], None), ([2, 5], 1), ([5], 1)]:
         hshape = xs if nd is None else xs[-nd:]
@@ -332,11 +349,13 @@ def g_Pad(rng):
     for shape in [[1], [3], [2, 3], [3, 1], [2, 2, 3]]:
         for pw in _pad_widths(len(shape)):
             out.append({"shape": shape, "pad_width": pw, "mode": "constant", "dtype": "float64"})
-        for mode in ("edge", "wrap", "reflect", "symmetric"):
+        for mode in ("edge", "wrap", "reflect", "symmetric", "mean"):
             if mode == "reflect" and min(shape) < 2:
                 continue
             out.append({"shape": shape, "pad_width": 1, "mode": mode, "dtype": "float64"})
             out.append({"shape": shape, "pad_width": [[1, 0]] * len(shape), "mode": mode, "dtype": "float64"})
+            # pad widths larger than the axis (several reflections / periods)
+            out.append({"shape": shape, "pad_width": [[2 * shape[0] + 1, 3]] + [[0, 2]] * (len(shape) - 1), "mode": mode, "dtype": "float64"})
     out.append({"shape": [2, 3], "pad_width": [[1, 2], [0, 1]], "mode": "constant", "dtype": "complex128"})
     return out
 
@@ -412,6 +431,18 @@ def g_Slice(rng):
     for idx in three_d:
         out.append({"shape": [2, 3, 4], "idx": _idx_enc(idx), "dtype": "float64"})
     out.append({"shape": [3, 4], "idx": _idx_enc((s(None, None, -1), 1)), "dtype": "complex128"})
+    # np.newaxis, alone and combined with Ellipsis / integer / slice entries (indexed_shape offsets)
+    newax = [
+        ([3], (None,)), ([3], (None, s(1, None))), ([3], (s(None, None, -1), None)),
+        ([3, 4], (None, Ellipsis, s(1, None))), ([3, 4], (Ellipsis, None, s(1, 3))), ([3, 4], (0, None, Ellipsis)),
+        ([3, 4], (s(1, None), None, Ellipsis, 0)), ([3, 4], (None, None, 1)), ([3, 4], (Ellipsis, None)),
+        ([2, 3, 4], (None, Ellipsis, s(None, None, 2))), ([2, 3, 4], (1, None, Ellipsis, None, s(0, 2))), ([2, 3, 4], (s(None), None, 1)),
+    ]
+    for k, (shape, idx) in enumerate(newax):
+        c = {"shape": shape, "idx": _idx_enc(idx), "dtype": "float64"}
+        if k in (3, 6):
+            c["must"] = True
+        out.append(c)
     return out
 
 
@@ -664,7 +695,10 @@ def g_SingleAxisFiniteSum(rng):
 
 
 def g_FiniteSum(rng):
-    return [{"shape": sh, "axes": ax, "dtype": "float64"} for sh in ([4], [2, 3], [2, 3, 2]) for ax in [None] + _subsets(len(sh))]
+    out = [{"shape": sh, "axes": ax, "dtype": "float64"} for sh in ([4], [2, 3], [2, 3, 2]) for ax in [None] + _subsets(len(sh))]
+    out += [{"shape": [2, 3], "axes": ax, "dtype": "float64", "must": True} for ax in ([0, -1],)]
+    out += [{"shape": [2, 3, 2], "axes": ax, "dtype": "float64"} for ax in ([-1, 0], [-3, 2], [1, -1])]
+    return out
 
 
 def g_SingleAxisHaarTransform(rng):
